@@ -4,7 +4,7 @@ query samples, <= 14 FRI rounds, coset loops <= 16, exponentiations <= 256 squar
 makes <= |queue| + |auths| steps; all model functions are total; cost bound as far as proved — see the file).
 The model cannot exhibit wall time or the allocator: every case below is ALSO run in an isolated child process of the real verifier
 under a wall-clock limit and an address-space limit, and its time / peak RSS must stay within a fixed multiple of the honest run."""
-import os, resource, subprocess, time
+import copy, os, resource, subprocess, time
 import framework as fw
 from framework import P
 from props import prooflib as PL
@@ -13,13 +13,14 @@ PID = 'C17'
 LEVEL = 'proof'
 LEAN_TARGETS = ['Swiftness.Props.C17']
 TRANSLATOR_PARTS = ('consts', 'ast')
-DRV_LAYOUTS = ['recursive']
+DRV_LAYOUTS = ['recursive', 'dynamic']
 BUILDS = {'quick': [('k160', 'stone5', 'full', 'all_layouts', 'parser')], 'thorough': [('k160', 'stone5', 'full', 'all_layouts', 'parser')]}
 EXTREME = [0, 1, 2, 48, 49, 1 << 16, 1 << 20, 1 << 32, 1 << 40, (1 << 64) - 1, 1 << 64, 1 << 128, P - 2, P - 1]
 RULE = ('bases: fixture + shipped recursive proof (thorough: + 5 other static layouts and the dynamic proof). every numeric field of the config '
         'and public input (and the nonce) set to each of {0,1,2,48,49,2^16,2^20,2^32,2^40,2^64-1,2^64,2^128,P-2,P-1}, alone, as an alias cur+k*2^w (w=32,64,128) of the honest value, and together with a '
         'consistent re-declaration of the dependent fields (n_queries with security incl. k*2^w+q, blow-up with heights, trace size with FRI, layer count '
-        'with vectors, dynamic parameters). each case: model agreement + isolated child process of the real verifier (wall limit 20 s per '
+        'with vectors, dynamic parameters); dynamic layout: validate_public_input of the shipped dynamic public input with every row ratio / switch / column count '
+        '(and a sample of the other parameters) set to {0,1,2,T/2,T,2T,2^40,2^63,2^64-1}, also with the builtin switched on. each case: model agreement + isolated child process of the real verifier (wall limit 20 s per '
         'chunk of 25, address space 6 GiB); bound: time <= 40 x honest + 1 s, peak RSS <= honest + 512 MiB. non-trivial = all mutants.')
 ASSUMPTIONS = ['wall time and RSS are measured on this machine in a child process; they are a test of the runtime behaviour the model cannot exhibit']
 TRUSTED = ['Python oracle on measured time / RSS']
@@ -91,6 +92,27 @@ def cases(rng, tier, feats, drv_ok):
             out.append({'line': b.line(PL.setp(b.v, I['pi.log_n_steps'], (), lns)), 'kind': 'redeclared:log_n_steps', 'name': b.name, 'pos': hex(lns)})
         for last in [15, 16, 64, P - 1]:
             out.append({'line': b.line(PL.setp(b.v, I['cfg.fri.log_last_layer_degree_bound'], (), last)), 'kind': 'redeclared:last_layer', 'name': b.name, 'pos': hex(last)})
+    # the dynamic layout's validation is driven by 340 prover-declared parameters (row ratios, offsets, switches): each key parameter set
+    # to hostile values (zero, one, above the trace length, 2^40, 2^63, 2^64-1) must be answered as fast as the honest input
+    from props import C14
+    C14.HX = HX
+    dynb = C14.bases().get('dynamic') if HX and 'parser' in feats else None
+    if dynb:
+        pi, t, c = dynb; ix = C14.dyn_meta()['idx']; T = 1 << t
+        dl = lambda p: f'validate_pi dynamic {C14.pi_tokens(p)} {t:x} {c:x}'
+        out.append({'line': dl(pi), 'kind': 'base', 'name': 'dynamic-public-input', 'pos': '-'})
+        names = [n for n in sorted(ix, key=ix.get) if n.endswith('row_ratio') or n.startswith('uses_') or n in ('cpu_component_step', 'num_columns_first', 'num_columns_second')]
+        names += [n for n in sorted(ix, key=ix.get) if n not in names and (tier == 'thorough' or rng.chance(1, 12))]
+        for n in names:
+            for v in [0, 1, 2, T // 2, T, 2 * T, 1 << 40, 1 << 63, (1 << 64) - 1]:
+                if v == pi['dyn'][ix[n]]: continue
+                p = copy.deepcopy(pi); p['dyn'][ix[n]] = v
+                out.append({'line': dl(p), 'kind': 'dynamic-param', 'name': 'dynamic-public-input', 'pos': f'{n}={v:#x}'})
+                if n.endswith('row_ratio') and n.split('_row_ratio')[0] + '_builtin' not in '':   # with the builtin switched on as well
+                    for u in [k for k in ix if k.startswith('uses_') and k[5:].split('_builtin')[0] in n]:
+                        if pi['dyn'][ix[u]] == 0:
+                            p2 = copy.deepcopy(p); p2['dyn'][ix[u]] = 1
+                            out.append({'line': dl(p2), 'kind': 'dynamic-param', 'name': 'dynamic-public-input', 'pos': f'{n}={v:#x},{u}=1'})
     return out
 
 
